@@ -32,6 +32,7 @@ def run(ctx):
     ctx.rule(halflen)
     ctx.rule(nyquist_bound)
     ctx.rule(startbin)
+    ctx.rule(buffer_span)
     ctx.rule(same_formula)
     ctx.rule(hermitian)
     ctx.rule(purity)
@@ -122,6 +123,41 @@ def _val_expr(prog, f, key_pred, seed=None):
         raise AnalysisError("bin loop not found in %s" % f.short)
     ev = cc.body_eval(prog, f, loops[0].body, seed=seed)
     return ev, loops[0]
+
+
+def buffer_span(ctx, R="R-C06-startbin"):
+    """The truncated buffer of the vertex banks is exactly as long as the run of bins the loop fills (first bin .. last bin the
+    triangle reaches): a longer buffer - e.g. one forced to hold at least one bin - ends past the half spectrum when no bin
+    falls inside the filter, and the documented recipe half[bin_idx:bin_idx+len(trnc)] = trnc no longer fits."""
+    prog = ctx.prog
+    for name in fc.VERTEX_BANKS:
+        f = prog.own_method(fc.bank(prog, name), "get_truncated_response")
+        ev = SymEval(prog, f, inline_props=False, loop_first=True).run()
+        loops = [n for n in f.body_nodes() if isinstance(n, ast.For) and isinstance(n.iter, ast.Call) and astq.is_name(n.iter.func, "range") and len(n.iter.args) == 2]
+        allocs = [n for n in f.body_nodes() if isinstance(n, ast.Assign) and isinstance(n.value, ast.Call) and prog.qualify(f.module, n.value.func, f) in ("numpy.zeros", "numpy.empty")]
+        if len(loops) != 1 or len(allocs) != 1:
+            ctx.error(R, "cannot decide the length of the truncated buffer of %s: bin loop / allocation not recognised" % name)
+            continue
+        lo, hi = ev.eval_at(loops[0], loops[0].iter.args[0]), ev.eval_at(loops[0], loops[0].iter.args[1])
+        size = ev.eval_at(allocs[0], allocs[0].value.args[0])
+        if size.op == "call" and size.args[0] == "tuple" and len(size.args) == 2:
+            size = size.args[1]
+        from .. import scenario as SC
+        cands = [S.sub(hi, lo)]
+        if hi.op == "min":
+            cands += [S.sub(a, lo) for a in hi.args]
+        verdicts = []
+        for c_ in cands:
+            (a_, b_), names = SC.atomise(size, c_)
+            verdicts.append(S.compare(a_, b_, domain={}))
+        what = "%s: the truncated buffer is as long as the run of bins first..last reached by the filter" % name
+        if any(v["verdict"] == "equal" for v in verdicts):
+            ctx.ok(R, f.loc(allocs[0]), what)
+        elif all(v["verdict"] == "differ" for v in verdicts) and not (SC.vocabulary(size)[0] - {"int", "ceil", "floor", "getitem", "len"}):
+            ctx.bad(R, f, allocs[0], "%s allocates %s bins for the run %s .. %s (e.g. %s): when no DFT bin falls inside the filter the buffer is longer than the "
+                    "run and reaches past the half spectrum" % (name, S.show(size)[:80], S.show(lo)[:40], S.show(hi)[:60], verdicts[0].get("witness")), what)
+        else:
+            ctx.error(R, "cannot decide the length of the truncated buffer of %s: %s" % (name, S.show(size)[:100]))
 
 
 def same_formula(ctx, R="R-C06-same-formula"):
